@@ -286,6 +286,57 @@ func c20(r *core.Report) {
 		r.Fail("C20-CLOSEST: %d stores to a Closest field found in the iteration callbacks, 3 confirmed on the pinned tree", nClosest)
 	}
 
+	// ---- C20-UNSET-EXACT: "Closest.IsZero()" / "From.IsZero()" is how the operations tell "nothing recorded
+	// yet" from a recorded node. The test has to be exact (true for the all-zero id only): with a lossy test the
+	// nearest node, once recorded, is overwritten by a farther one and a found value is reported as not found.
+	r.Rule("C20-UNSET-EXACT", "the unset test of a node id is the comparison with the zero value, or folds the bytes with OR and compares with zero only", 1)
+	{
+		seenZ := map[*ssa.Function]bool{}
+		for _, nm := range []string{"DHTFindNode", "DHTGet", "DHTPut", "DHTJoin", "dhtIterate"} {
+			fn := p.Func("p/kademlia", nm)
+			if fn == nil {
+				continue
+			}
+			fns := append([]*ssa.Function{fn}, fn.AnonFuncs...)
+			for _, g := range fns {
+				for _, in := range core.AllInstrs(g) {
+					c, ok := in.(*ssa.Call)
+					if !ok {
+						continue
+					}
+					z := core.StaticCallee(c.Common())
+					if z == nil || z.Name() != "IsZero" || !p.InModule(z) || seenZ[z] || z.Blocks == nil {
+						continue
+					}
+					seenZ[z] = true
+					r.Analysed(z)
+					recv := z.Params[0]
+					fromRecv := func(v ssa.Value) bool {
+						return core.DerivesFrom(v, func(x ssa.Value) bool { return x == ssa.Value(recv) })
+					}
+					bad := ""
+					for _, zi := range core.AllInstrs(z) {
+						b, isB := zi.(*ssa.BinOp)
+						if !isB || !(fromRecv(b.X) || fromRecv(b.Y)) {
+							continue
+						}
+						switch b.Op {
+						case token.EQL, token.NEQ, token.OR:
+						default:
+							bad = fmt.Sprintf("%s at %s", b.Op, p.Pos(b.Pos()))
+						}
+					}
+					r.Check(bad == "", "C20-UNSET-EXACT", core.FnName(z), p.Pos(z.Pos()),
+						"the id's bytes are only compared for equality or OR-ed together",
+						"the unset test combines the id's bytes with "+bad+": ids that are not all-zero can test as unset (e.g. bytes that cancel), so a recorded nearest node is overwritten by a farther one and a found value is reported as missing")
+				}
+			}
+		}
+		if len(seenZ) == 0 {
+			r.Fail("C20-UNSET-EXACT: no IsZero call found in the iterative operations")
+		}
+	}
+
 	// ---- C20-TRUTH
 	r.Rule("C20-TRUTH", "results and errors of the iterative operations are guarded by the conditions they report", 8)
 	fieldCmp := func(op token.Token, xName, yName string) func(ssa.Value) bool {
